@@ -209,7 +209,10 @@ def shaped (k : Kind) (m : Xml) : Bool :=
   | none => false
   | some base =>
     match k with
-    | .StorySend => (base.find "storyBody").isSome
+    | .StorySend =>
+      -- the storyBody exists and (as the MOS schema says) holds no storyID of its own, so that the
+      -- converted story's ID is the roStorySend's storyID
+      (match base.find "storyBody" with | some b => (b.find "storyID").isNone | none => false)
     | .ItemMoveMultiple => !(base.findall "itemID").isEmpty
     | .EAStorySwap => ((base.find "element_source").map (fun s => (s.findall "storyID").length == 2)).getD false
     | .EAItemSwap => ((base.find "element_source").map (fun s => (s.findall "itemID").length == 2)).getD false
